@@ -645,7 +645,11 @@ def gen_program(rng, name, nentries=1, nhelpers=2, opts=None):
     entries = []
     for e in range(nentries):
         en = f"{name}_e{e}"
-        FuncGen(rng, P, en, entry=True, helpers=helpers, opts=opts).build()
+        eo = dict(opts or {})
+        if rng.chance(1, 5):   # high register pressure: more live values than hard registers (spills, reloads, splits)
+            eo.setdefault("nint", 22)
+            eo.setdefault("ndbl", 18)
+        FuncGen(rng, P, en, entry=True, helpers=helpers, opts=eo).build()
         entries.append(en)
     return P, entries
 
